@@ -34,7 +34,7 @@ def make_doc(accessor, tag):
     return top.dumps()
 
 
-def resolve(sym, accessor, trailing_slash, locs, bad):
+def resolve(sym, accessor, trailing_slash, locs, bad, root_name="root"):
     entries = {"": None}
     tag = 0
     names = FILES[accessor]
@@ -51,7 +51,7 @@ def resolve(sym, accessor, trailing_slash, locs, bad):
                 text = ["{{ this is not json", text.replace("productmd." + {"info": "composeinfo", "images": "images", "rpms": "rpms", "modules": "modules"}[kind],
                                                             "productmd.other")][bad[2]]
             entries[os.path.join(md, name)] = text
-    root, bits = sym.symbolic_fs(entries)
+    root, bits = sym.symbolic_fs(entries, root_name)          # the opened directory's own name must not matter
     path = root + "/" if trailing_slash else root
     c = productmd.compose.Compose(path)
     sym.cover("opened")
@@ -167,6 +167,12 @@ def jobs(tier, seed):
             for bi, name in enumerate(FILES[accessor]):
                 out.append({"harness": "resolve", "params": {"accessor": accessor, "trailing_slash": bool(bi), "locs": ["", "compose"],
                                                             "bad": [loc, name, (bi + len(loc)) % 2]}})
+    # the opened directory is itself called like one of the names the prober looks for
+    for ri, root_name in enumerate(["compose", "metadata", "1.0", "compose.old"]):
+        for li, locs in enumerate(loc_sets[:4]):
+            if big or (ri + li + seed) % 2 == 0 or root_name == "compose":
+                out.append({"harness": "resolve", "params": {"accessor": list(FILES)[(ri + li) % 4], "trailing_slash": bool((ri + li) % 2), "locs": locs, "bad": None,
+                                                            "root_name": root_name}})
     for first, second in (("images", "rpms"), ("rpms", "images"), ("images", "modules"), ("rpms", "info"), ("modules", "rpms")):
         for loc in ("", "compose"):
             out.append({"harness": "resolve_pair", "params": {"first": first, "second": second, "loc": loc}})
@@ -181,6 +187,7 @@ META = {
         "symbolic file system (psx/stubs.py SymFS): a finite universe of candidate paths (the compose directory, its 'compose' and legacy subdirectories, their "
         "metadata directories and every current/legacy file name of the accessor), one existence bit per path constrained only by 'a path exists only if its parent does'; "
         "listdir returns the existing children in every order",
+        "the opened directory's own name is 'root' or one of 'compose', 'metadata', '1.0', 'compose.old' (names the prober itself looks for)",
         "files hold distinct concrete valid documents written by the real writers (or an undecodable / foreign-type one where stated)",
         "where the property is silent (a direct metadata/ next to a legacy subdirectory, several legacy subdirectories) any candidate location is accepted",
         "HTTP(S)/FTP locations are outside the claim",
